@@ -4,7 +4,7 @@ manifest can never drift from what ./run supports)."""
 import json, subprocess, os
 
 HOOK_COMMITS = ["61b94ce", "8f421be"]
-FIX_COMMITS = ["a51fb22", "b0c8ea5", "98c1f4b", "e663d4c", "32aebe9", "fc86303", "229945c", "8af08bf", "265bffc", "2d1a4cc", "4e6926f", "9fa7532", "bf2b0b5", "e42a3ea", "0c3e286", "bea63fc"]
+FIX_COMMITS = [l.split()[0] for l in subprocess.check_output(["git","-C","/repo","log","--oneline","--grep=^fix:"]).decode().splitlines()]
 
 # id -> (engine, category, technique, text, note, design_ref)
 CHECKS = {}
@@ -163,7 +163,7 @@ def main():
         ],
         "checks": checks,
         "not_applicable": na,
-        "notes": "All checks: ./run <id> <quick|thorough>; exit 0 held / 1 VIOLATION / 2 machinery error. Known findings: /verif/known_findings.json.",
+        "notes": "Fix commits in /repo (see known_findings.json): " + ", ".join(FIX_COMMITS) + ". All checks: ./run <id> <quick|thorough>; exit 0 held / 1 VIOLATION / 2 machinery error. Known findings: /verif/known_findings.json.",
     }
     json.dump(m, open("/verif/MANIFEST.json", "w"), indent=1)
     print("checks:", len(checks), "not_applicable:", len(na))
